@@ -834,6 +834,8 @@ def run(chk):
     part_names(cx)
     part_trees(cx)
     part_utils(cx)
+    import c14_import
+    c14_import.part_import_reactor(cx)
     try:
         import c14_cli
         c14_cli.run_cli(cx)
@@ -856,6 +858,7 @@ def replay(chk, rep):
     CLI cases through the real binary (the generated input is carried in the replay file)"""
     shown = dict(rep)
     shown.pop("input_pdf_base64", None)
+    shown.pop("input_json_base64", None)
     print(json.dumps(shown, indent=1)[:6000])
     case = rep.get("case", {})
     drv = os.path.join(common.DRV, "drv")
@@ -863,6 +866,11 @@ def replay(chk, rep):
     line = None
     if not isinstance(case, dict):
         return 0
+    if "json_texts_hex" in case or "variant_json" in case:
+        import c14_import
+        r = c14_import.replay(chk, rep)
+        if r is not None:
+            return r
     if "real" in case:
         line = "jreal " + hexs(case["real"].encode("latin-1"))
     elif "string_bytes" in case:
